@@ -400,7 +400,8 @@ def run(ctx):
             mode += "+large"
         do_ensrank(eps, sim, mode)
     # very large ensembles: the smallest gap of F from 1/2 is 1/(2 m^2)
-    for m in (7071, 7072, 9973):
+    # 46341 = first m with m*(m+1) > INT_MAX: an integer rank-sum formula overflows there (seeded C10-m1)
+    for m in (7071, 7072, 9973, 46340, 46341, 65537):
         do_large(m)
     # error paths of the kernel
     for eps, sim in [(1e-21, [[1.0, 2.0], [2.0, 3.0]]), (0.0, [[1.0], [2.0]]), (-1.0, [[1.0], [2.0]]),
